@@ -355,11 +355,13 @@ Section Case.
               | Some _ =>
                   match ref_am with
                   | None =>
-                      (* no coercion exists: nothing may be called; a field answers with an error
-                         (a directive whose arguments do not coerce is ignored, as in CollectFields) *)
+                      (* no coercion exists: nothing may be called (neither the resolver / filter nor,
+                         for a directive, the field it guards) and the client gets an error *)
                       match o_calls o with
-                      | [] => if site_field && negb (match o_exec o with VReject => true | _ => false end)
-                              then Some (v_oracle_fail "no-error-although-no-coercion-exists" [])
+                      | [] => if negb (match o_exec o with VReject => true | _ => false end)
+                              then Some (v_oracle_fail (if site_field then "no-error-although-no-coercion-exists"
+                                                        else "directive-silently-ignored-although-no-coercion-exists") [])
+                              else if o_ran o then Some (v_oracle_fail "selection-ran-although-directive-does-not-coerce" [])
                               else
                                 (* static_dynamic_agree, on the reference side: after validation a
                                    coercion can only be missing for one of the run-time reasons *)
@@ -410,7 +412,7 @@ Section Case.
            | Ok _ =>
                match am with
                | Ok m => (VOk, [m], negb site_field)
-               | Err => if site_field then (VReject, [], false) else (VOk, [], true)
+               | Err => (VReject, [], false)     (* field: field error; directive: reported by collectFields, selection left out *)
                | Panic => (VPanic, [], false)
                end
            end in
@@ -450,6 +452,8 @@ Section Case.
     (if negb has_vars then ["literal-only"] else []) ++
     (if has_default then ["argument-default"] else []) ++ (if var_default then ["variable-default"] else []) ++
     (if null_var then ["null-variable"] else []) ++
+    (if existsb (fun p => negb (existsb (fun d => bytes_eqb (fst p) (vd_name d)) defs)) raw then ["undeclared-variable-value"] else []) ++
+    (if existsb (fun d => negb (type_known E (vd_type d))) defs then ["variable-of-unknown-or-output-type"] else []) ++
     (match o_static o, ref with
      | VReject, Some _ => ["static-reject-reference-accepts"]
      | _, _ => []
